@@ -201,6 +201,11 @@ func runProp(id string, f propFunc, tier, repo, verif string) int {
 	extra := map[string]any{"loads": stats, "fixtures": fixtures,
 		"checker_cmd":  fmt.Sprintf("./bin/kitcheck -prop %s -tier %s", id, tier),
 		"trusted_base": []string{"go/types and go/ssa of golang.org/x/tools v0.29.0", "the rule tables in kitcheck/prop_" + strings.ToLower(id) + ".go", "documented contracts of the standard library functions named in the rules"}}
+	if tier == "thorough" && os.Getenv("KITCHECK_NO_SELFTEST") == "" {
+		for k, v := range runSelfTest(id, repo, verif) {
+			extra[k] = v
+		}
+	}
 	return r.Finish(verif, start, extra)
 }
 
